@@ -26,18 +26,24 @@ func init() {
 var reviewedDerefs = map[string]string{
 	"(pkg/cloudprovider/aws.Builder).Build/Client":                             "embedded *client.Client of an AWS service client just built by autoscaling.New, which always sets it (provider rebuild path)",
 	"(*pkg/controller.Controller).RunOnce/lookup":                              "NewController stores an entry under every configured group's Name and the map is never modified afterwards (C12.R1/R3/R4), so the lookup by the same Name cannot miss",
-	"(*pkg/cloudprovider/aws.NodeGroup).DeleteNodes/Activity":                  "field of a successful TerminateInstanceInAutoScalingGroup reply (err == nil on this path); the statement quantifies over listed Kubernetes objects and failing calls, not malformed successful AWS replies",
-	"(*pkg/cloudprovider/aws.NodeGroup).DeleteNodes/Description":               "same successful reply",
-	"(*pkg/cloudprovider/aws.NodeGroup).allInstancesReady$1/InstanceState":     "element of a successful DescribeInstanceStatus page",
-	"(*pkg/cloudprovider/aws.NodeGroup).allInstancesReady$1/Name":              "same successful page",
-	"pkg/cloudprovider/aws.instanceToProviderID/AvailabilityZone":              "instance of the cached, successfully described ASG",
-	"pkg/cloudprovider/aws.instanceToProviderID/InstanceId":                    "instance of the cached, successfully described ASG",
-	"pkg/cloudprovider/aws.createTemplateOverrides/VPCZoneIdentifier":          "group of a successful DescribeAutoScalingGroups reply (length checked)",
-	"(*pkg/cloudprovider/aws.Instance).InstantiationTime/LaunchTime":           "instance of a successful DescribeInstances reply with exactly one reservation and instance",
 	"(*pkg/cloudprovider/aws.Instance).InstantiationTime/ec2Instance":          "set from a length-checked successful DescribeInstances reply when err == nil",
-	"(*pkg/cloudprovider/aws.NodeGroup).setASGDesiredSizeOneShot/ErrorMessage": "element of the Errors list of a successful CreateFleet reply",
-	"pkg/cloudprovider/aws.addASGTags/Key":                                     "tag of the successfully described ASG (registration path)",
 	"(*pkg/controller.Controller).calculateNewNodeMetrics/Node":                "entries whose node is nil are removed when the node-info map is built (CreateNodeNameToInfoMap deletes incomplete infos)",
+}
+
+// reviewedReplyFields: pointer fields of AWS SDK reply structures dereferenced without a local
+// guard, keyed by structure type and field. The statement quantifies over listed Kubernetes objects
+// and failing calls, not over malformed successful AWS replies (an assumption of this property).
+var reviewedReplyFields = map[string]string{
+	"autoscaling.TerminateInstanceInAutoScalingGroupOutput.Activity": "field of a successful TerminateInstanceInAutoScalingGroup reply",
+	"autoscaling.Activity.Description":                                "same successful reply",
+	"ec2.InstanceStatus.InstanceState":                                "element of a successful DescribeInstanceStatus page",
+	"ec2.InstanceState.Name":                                          "same successful page",
+	"autoscaling.Instance.AvailabilityZone":                           "instance of the cached, successfully described ASG",
+	"autoscaling.Instance.InstanceId":                                 "instance of the cached, successfully described ASG",
+	"autoscaling.Group.VPCZoneIdentifier":                             "group of a successful DescribeAutoScalingGroups reply (length checked)",
+	"ec2.Instance.LaunchTime":                                         "instance of a successful DescribeInstances reply with exactly one reservation and instance",
+	"ec2.CreateFleetError.ErrorMessage":                               "element of the Errors list of a successful CreateFleet reply",
+	"autoscaling.TagDescription.Key":                                  "tag of the successfully described ASG (registration path)",
 }
 
 type panicSite struct {
@@ -326,6 +332,37 @@ func (ck *Check) derefSite(ctx *Ctx, in ssa.Instruction, mkKey func(string) stri
 			return
 		}
 	}
+	// m[k] with k the key of the enclosing range over the same map, which the loop does not modify:
+	// the entry is the range's own value
+	if lk, isLk := ptr.(*ssa.Lookup); isLk {
+		if ex, ok := lk.Index.(*ssa.Extract); ok && ex.Index == 1 {
+			if nx, ok := ex.Tuple.(*ssa.Next); ok {
+				if rg, ok := nx.Iter.(*ssa.Range); ok && (rg.X == lk.X || ctx.Term(rg.X).Key() == ctx.Term(lk.X).Key()) {
+					modified := false
+					if l := innermostLoop(fn, in.Block()); l != nil {
+						for b := range l.Blocks {
+							for _, i2 := range b.Instrs {
+								switch y := i2.(type) {
+								case *ssa.MapUpdate:
+									if y.Map == lk.X || ctx.Term(y.Map).Key() == ctx.Term(lk.X).Key() {
+										modified = true
+									}
+								case *ssa.Call:
+									if bi, ok := y.Common().Value.(*ssa.Builtin); ok && bi.Name() == "delete" {
+										modified = true
+									}
+								}
+							}
+						}
+					}
+					if !modified {
+						ck.ok("C20.R2", key, ck.P.instrPos(in), funcID(fn), "the dereferenced value ("+desc+") is known to be present", "looked up under the key of the enclosing range over the same, unmodified map")
+						return
+					}
+				}
+			}
+		}
+	}
 	// a map entry stored under the same key earlier in the function (insert-then-use idiom)
 	if lk, isLk := ptr.(*ssa.Lookup); isLk {
 		for _, b := range fn.Blocks {
@@ -356,11 +393,26 @@ func (ck *Check) derefSite(ctx *Ctx, in ssa.Instruction, mkKey func(string) stri
 	case *ssa.Lookup:
 		fieldName = "lookup"
 	}
+	// fields of AWS SDK reply structures are reviewed by type, wherever the code that reads them lives
+	typeKey := ""
+	if u, ok := ptr.(*ssa.UnOp); ok {
+		if fa, ok := u.X.(*ssa.FieldAddr); ok {
+			if pt, ok := fa.X.Type().Underlying().(*types.Pointer); ok {
+				if nt, ok := pt.Elem().(*types.Named); ok && nt.Obj().Pkg() != nil && strings.Contains(nt.Obj().Pkg().Path(), "aws-sdk-go/service/") {
+					typeKey = nt.Obj().Pkg().Name() + "." + nt.Obj().Name() + "." + fieldName
+				}
+			}
+		}
+	}
+	if why, ok := reviewedReplyFields[typeKey]; ok && typeKey != "" {
+		ck.ok("C20.R2", key, ck.P.instrPos(in), funcID(fn), "the dereferenced value ("+desc+") is known to be present", "reviewed ("+typeKey+"): "+why)
+		return
+	}
 	if why, ok := reviewedDerefs[funcID(fn)+"/"+fieldName]; ok {
 		ck.ok("C20.R2", key, ck.P.instrPos(in), funcID(fn), "the dereferenced value ("+desc+") is known to be present", "reviewed: "+why)
 		return
 	}
-	ck.fail("C20.R2", key, ck.P.instrPos(in), funcID(fn), "the dereferenced value ("+desc+") is guarded (nil / err == nil / comma-ok) on every path", what+" on "+ctx.Term(ptr).String()+" under "+trunc(pc.String()), "a missing or failed value is dereferenced: the scan panics (funcID/field for the reviewed table: "+funcID(fn)+"/"+fieldName+")")
+	ck.fail("C20.R2", key, ck.P.instrPos(in), funcID(fn), "the dereferenced value ("+desc+") is guarded (nil / err == nil / comma-ok) on every path", what+" on "+ctx.Term(ptr).String()+" under "+trunc(pc.String()), "a missing or failed value is dereferenced: the scan panics (type key "+typeKey+"; funcID/field for the reviewed table: "+funcID(fn)+"/"+fieldName+")")
 }
 
 // insertOrPresent: the MapUpdate stores under key k exactly on the path where the preceding
@@ -420,12 +472,16 @@ func (ck *Check) stopCensus(rule string, fns []*ssa.Function) {
 				}
 			}
 		}
-		key := "RunOnce/return:" + returnShape(rt)
-		if allowed {
-			ck.ok(rule, key, ck.P.instrPos(r), funcID(fn), "RunOnce returns an error only for *NodeNotInNodeGroup", "under the type test")
-			continue
+		// the construct that fails is where the error comes from, also when it travels through a
+		// helper of RunOnce (a φ, or the return sites of a repo function called here)
+		for _, org := range errorOrigins(ck.P, ctx, r.Results[0], 0) {
+			key := "RunOnce/return:" + returnShape(org)
+			if allowed {
+				ck.ok(rule, key, ck.P.instrPos(r), funcID(fn), "RunOnce returns an error only for *NodeNotInNodeGroup", "under the type test")
+				continue
+			}
+			ck.fail(rule, key, ck.P.instrPos(r), funcID(fn), "RunOnce returns a non-nil error (which ends the process) only for *NodeNotInNodeGroup", org.String(), "another condition stops the controller")
 		}
-		ck.fail(rule, key, ck.P.instrPos(r), funcID(fn), "RunOnce returns a non-nil error (which ends the process) only for *NodeNotInNodeGroup", rt.String(), "another condition stops the controller")
 	}
 	ck.floor(rule, "non-nil returns of RunOnce", nret, 1)
 }
@@ -540,20 +596,7 @@ func (ck *Check) isTimedWait(l *Loop) bool {
 				continue
 			}
 			for _, st := range sel.States {
-				// channel = *(&timer.C) with timer = time.NewTimer(...)
-				ld, ok := st.Chan.(*ssa.UnOp)
-				if !ok {
-					continue
-				}
-				fa, ok := ld.X.(*ssa.FieldAddr)
-				if !ok {
-					continue
-				}
-				c, ok := fa.X.(*ssa.Call)
-				if !ok {
-					continue
-				}
-				if f := c.Common().StaticCallee(); f != nil && pkgPathOfFn(f) == "time" && f.Name() == "NewTimer" {
+				if ck.isTimerChan(st.Chan, 0) {
 					// some path from the select leaves the loop via a return / exit edge: the timer case
 					for _, e := range l.Exits {
 						if e[0] != l.Header {
@@ -800,4 +843,119 @@ func isExitCallee(f *ssa.Function) bool {
 	p := pkgPathOfFn(f)
 	return (strings.Contains(p, "logrus") && (strings.HasPrefix(f.Name(), "Fatal") || strings.HasPrefix(f.Name(), "Panic"))) ||
 		(p == "os" && f.Name() == "Exit") || (p == "log" && (strings.HasPrefix(f.Name(), "Fatal") || strings.HasPrefix(f.Name(), "Panic")))
+}
+
+// errorOrigins: the terms an error value can have come from, looking through φs and through the
+// return sites of statically called repo functions (depth ≤ 3); nil constants are dropped.
+func errorOrigins(p *Prog, ctx *Ctx, v ssa.Value, depth int) []*Term {
+	if k, ok := v.(*ssa.Const); ok && k.IsNil() {
+		return nil
+	}
+	if depth <= 3 {
+		switch x := v.(type) {
+		case *ssa.Phi:
+			if !ctx.loopCarried(x) || true {
+				var out []*Term
+				seen := map[string]bool{}
+				for _, e := range x.Edges {
+					if e == ssa.Value(x) {
+						continue
+					}
+					for _, o := range errorOrigins(p, ctx, e, depth+1) {
+						if !seen[o.Key()] {
+							seen[o.Key()] = true
+							out = append(out, o)
+						}
+					}
+				}
+				if len(out) > 0 {
+					return out
+				}
+			}
+		case *ssa.Call, *ssa.Extract:
+			call, idx := (*ssa.Call)(nil), 0
+			if c, ok := x.(*ssa.Call); ok {
+				call = c
+			} else if e := x.(*ssa.Extract); true {
+				call, _ = e.Tuple.(*ssa.Call)
+				idx = e.Index
+			}
+			if call != nil {
+				if h := call.Common().StaticCallee(); h != nil && p.inRepo(h) && h.Blocks != nil && !errorConstructor(call) {
+					args := make([]*Term, len(call.Common().Args))
+					for i, av := range call.Common().Args {
+						args[i] = ctx.Term(av)
+					}
+					ch := ctx.child(h, call, args)
+					ch.depth = 0
+					var out []*Term
+					seen := map[string]bool{}
+					for _, b := range h.Blocks {
+						r, ok := b.Instrs[len(b.Instrs)-1].(*ssa.Return)
+						if !ok || idx >= len(r.Results) {
+							continue
+						}
+						for _, o := range errorOrigins(p, ch, r.Results[idx], depth+1) {
+							if !seen[o.Key()] {
+								seen[o.Key()] = true
+								out = append(out, o)
+							}
+						}
+					}
+					if len(out) > 0 {
+						return out
+					}
+				}
+			}
+		}
+	}
+	return []*Term{ctx.Term(v)}
+}
+
+// isTimerChan: v is the channel of a one-shot timer — *(&timer.C) with timer = time.NewTimer(…),
+// time.After(…), or a channel parameter that receives such a channel at every call site of the
+// function (the wait loop extracted into a helper).
+func (ck *Check) isTimerChan(v ssa.Value, depth int) bool {
+	switch x := v.(type) {
+	case *ssa.UnOp:
+		if fa, ok := x.X.(*ssa.FieldAddr); ok {
+			if c, ok := fa.X.(*ssa.Call); ok {
+				if f := c.Common().StaticCallee(); f != nil && pkgPathOfFn(f) == "time" && f.Name() == "NewTimer" {
+					return true
+				}
+			}
+		}
+	case *ssa.Call:
+		if f := x.Common().StaticCallee(); f != nil && pkgPathOfFn(f) == "time" && f.Name() == "After" {
+			return true
+		}
+	case *ssa.ChangeType:
+		return ck.isTimerChan(x.X, depth)
+	case *ssa.Parameter:
+		if depth >= 2 {
+			return false
+		}
+		fn := x.Parent()
+		idx := -1
+		for i, p := range fn.Params {
+			if p == x {
+				idx = i
+			}
+		}
+		n := 0
+		for _, cf := range ck.P.callers[fn] {
+			sites := callsTo(cf, fn)
+			if len(sites) == 0 {
+				return false // entered dynamically: the argument cannot be seen
+			}
+			for _, ci := range sites {
+				n++
+				if idx < 0 || idx >= len(ci.Common().Args) || !ck.isTimerChan(ci.Common().Args[idx], depth+1) {
+					return false
+				}
+			}
+		}
+		return n > 0
+	}
+	return false
 }
